@@ -30,6 +30,7 @@ func paHex() string {
 type chain struct {
 	hdr  map[uint64][]byte
 	dat  map[uint64][]byte
+	pdat map[uint64][]byte // the plain (unsigned) Data of every height, as the data sync service gossips it
 	shs  map[uint64]*types.SignedHeader
 	top  uint64
 	ih   uint64
@@ -43,7 +44,7 @@ func buildChain(r *hx.Rng, ih uint64, n int) *chain {
 		panic(err)
 	}
 	defer env.Cleanup()
-	c := &chain{hdr: map[uint64][]byte{}, dat: map[uint64][]byte{}, shs: map[uint64]*types.SignedHeader{}, ih: ih}
+	c := &chain{hdr: map[uint64][]byte{}, dat: map[uint64][]byte{}, pdat: map[uint64][]byte{}, shs: map[uint64]*types.SignedHeader{}, ih: ih}
 	c.priv, c.pub = bm.DetKey(1)
 	ts := baseTime
 	for i := 0; i < n; i++ {
@@ -70,6 +71,9 @@ func buildChain(r *hx.Rng, ih uint64, n int) *chain {
 		b, _ := sh.MarshalBinary()
 		c.hdr[h] = b
 		c.shs[h] = sh
+		if d.Metadata != nil {
+			c.pdat[h], _ = d.MarshalBinary()
+		}
 		if len(d.Txs) > 0 {
 			pl, _ := d.MarshalBinary()
 			sig, _ := c.priv.Sign(pl)
@@ -358,6 +362,52 @@ func (c *chain) p2pAhead(r *hx.Rng) map[string][]byte {
 	return out
 }
 
+// dataTimeOK: go-header's "from the future" check uses the wall clock, which the model replaces by a horizon
+// (2100-01-01); timestamps between 2025-01-01 and the horizon are not generated
+func dataTimeOK(b []byte) bool {
+	var d types.Data
+	if err := d.UnmarshalBinary(b); err != nil || d.Metadata == nil {
+		return true
+	}
+	t := int64(d.Metadata.Time)
+	return t < 1_735_689_600_000_000_000 || t > 4_102_444_800_000_000_000
+}
+
+// p2pDataVariants: data items a peer can send (Data carries no signature)
+func (c *chain) p2pDataVariants(r *hx.Rng) map[string][]byte {
+	out := map[string][]byte{}
+	var g types.Data
+	if err := g.UnmarshalBinary(c.pdat[c.top]); err != nil || g.Metadata == nil {
+		return out
+	}
+	enc := func(d *types.Data) []byte { b, _ := d.MarshalBinary(); return b }
+	out["a-genuine-top"] = c.pdat[c.top]
+	out["b-no-metadata-one-tx"] = enc(&types.Data{Txs: types.Txs{types.Tx("x")}})
+	out["c-no-metadata-no-tx"] = enc(&types.Data{})
+	out["d-empty-message"] = nil
+	out["e-raw-0a00"] = []byte{0x0a, 0x00} // metadata present but empty
+	md := *g.Metadata
+	md.ChainID = "other-chain"
+	out["f-wrong-chain"] = enc(&types.Data{Metadata: &md, Txs: g.Txs})
+	mb := *g.Metadata
+	mb.LastDataHash = r.Bytes(32)
+	out["g-broken-link"] = enc(&types.Data{Metadata: &mb, Txs: g.Txs})
+	mf := *g.Metadata
+	mf.Time = 7_258_118_400_000_000_000
+	out["h-from-the-future"] = enc(&types.Data{Metadata: &mf, Txs: g.Txs})
+	mw := *g.Metadata
+	mw.Time = 1 << 63
+	out["i-time-wraps"] = enc(&types.Data{Metadata: &mw, Txs: g.Txs})
+	mo := *g.Metadata
+	mo.Height = 0
+	out["j-height-zero"] = enc(&types.Data{Metadata: &mo, Txs: g.Txs})
+	ma := *g.Metadata
+	ma.Height += 7
+	out["k-far-ahead"] = enc(&types.Data{Metadata: &ma, Txs: types.Txs{types.Tx("forged")}})
+	out["l-garbage"] = r.Bytes(40)
+	return out
+}
+
 func junk(r *hx.Rng, src []byte) []byte {
 	b := append([]byte(nil), src...)
 	switch r.Intn(8) {
@@ -480,6 +530,68 @@ func genStream(r *hx.Rng, tier string, w io.Writer, adversarial bool) {
 		// a trusted header that does not decode, an empty message
 		fmt.Fprintf(w, "p2plib trusted=ffff tkeyok=0 %s\n", blobArgs(c.hdr[c.top]))
 		lib(c.hdr[c.top-1], nil)
+		// the FIRST header of the P2P store (no trusted hash): whatever a peer answers for the initial height
+		for h := c.ih; h <= c.ih+1; h++ {
+			vs := c.p2pVariants(r, h)
+			for _, name := range hx.SortedKeys(vs) {
+				fmt.Fprintf(w, "p2pboot %s\n", blobArgs(vs[name]))
+			}
+		}
+		for _, name := range hx.SortedKeys(fg) {
+			fmt.Fprintf(w, "p2pboot %s\n", blobArgs(fg[name]))
+		}
+		fmt.Fprintf(w, "p2pboot %s\n", blobArgs(nil))
+		// P2P data items through the library entry
+		libd := func(trusted, b []byte) {
+			t := "-"
+			if trusted != nil {
+				t = hx.Hex(trusted)
+			}
+			fmt.Fprintf(w, "p2plibdat trusted=%s blob=%s\n", t, hx.Hex(b))
+		}
+		dv := c.p2pDataVariants(r)
+		for h := c.ih; h <= c.top; h++ {
+			if c.pdat[h] == nil {
+				continue
+			}
+			var trs [][]byte
+			if h > c.ih && c.pdat[h-1] != nil {
+				trs = append(trs, c.pdat[h-1])
+			}
+			if h > c.ih+1 && c.pdat[h-2] != nil {
+				trs = append(trs, c.pdat[h-2])
+			}
+			if h < c.top && c.pdat[h+1] != nil {
+				trs = append(trs, c.pdat[h+1])
+			}
+			trs = append(trs, nil)
+			for _, tr := range trs {
+				libd(tr, c.pdat[h])
+			}
+		}
+		for _, name := range hx.SortedKeys(dv) {
+			libd(c.pdat[c.top-1], dv[name])
+			libd(nil, dv[name])
+		}
+		libd([]byte{0x12, 0x01, 0x78}, c.pdat[c.top]) // a trusted item without metadata: bad-trusted
+		nj := 150
+		if tier == "thorough" {
+			nj = 3000
+		}
+		for i := 0; i < nj; i++ {
+			b := junk(r, c.pdat[c.ih+uint64(r.Intn(int(c.top-c.ih+1)))])
+			if r.Chance(30) {
+				b = junk(r, b)
+			}
+			if !dataTimeOK(b) || len(b) > 4000 {
+				continue
+			}
+			if r.Bool() {
+				libd(c.pdat[c.ih], b)
+			} else {
+				libd(nil, b)
+			}
+		}
 	}
 	var srcs [][]byte
 	for h := c.ih; h <= c.top; h++ {
